@@ -1977,6 +1977,7 @@ package goatlang
 //@ ghost tokArr(a int) bool
 //@ axiom TOKARR
 //@   def forall a int :: tokArr(a) ==> !isfresh(a)
+//@   def !tokArr(0)
 //@ spec tokensKept() bool
 //@   def forall a int :: tokArr(a) ==> same(elemsAt(*token, a), old(elemsAt(*token, a)))
 //@ spec wfL(l *lookup) bool
@@ -2664,10 +2665,12 @@ package goatlang
 //@   nopanic
 //@
 //@ func (*compiler).run
-//@   property C03
-//@   requires wfC(c) && tok != nil
+//@   property C03 C15
+//@   axioms TOKARR
+//@   requires wfC(c)
 //@   modifies *
 //@   nopanic
+//@   ensures#wf isnil(err) ==> wfL(c.Locals) && wfL(c.Globals) && c.Locals == old(c.Locals) && c.Globals == old(c.Globals)
 //@
 //@ -- the stage functions. tokenize sits on text/scanner (external): assumed not to panic and to
 //@ -- end every token list with the (eof) token it appends itself.
@@ -2700,3 +2703,19 @@ package goatlang
 //@ func (*VM).treeDump loop 0
 //@   invariant true
 //@   assume forall j int :: 0 <= j && j < len(tree) ==> tree[j] != nil && len(tree[j].Tokens) >= 1 && len(tree[j].Text) >= 1
+//@
+//@ -- all packages of one load share one local-slot table: the slot count handed to VM.run must
+//@ -- cover the package-level blocks of every package, not only the last one
+//@ func newLookup
+//@   property C08 C15
+//@   allocates lookup
+//@   nopanic
+//@   ensures result != nil && isfresh(result) && wfL(result) && len(result.data) == 0
+//@ func compilePkgs
+//@   property C15 C03 C07
+//@   axioms TOKARR
+//@   requires wfL(g) && (forall j int :: 0 <= j && j < len(pkgs) ==> pkgs[j] != nil)
+//@   modifies *
+//@   callsite#sharedlocals (*compiler).run: arg_c.Locals == locals && arg_c.Globals == g && arg_c.Optimize == optimize
+//@ func compilePkgs loop 0
+//@   invariant#locals locals != nil && wfL(locals) && locals != g && wfL(g)
